@@ -16,6 +16,7 @@ C12 — property theorems about the state machine `CBV.C12` (Model/C12.lean), fo
 * `T_C12_wf_run`          the representation invariant holds along every legal history.
 -/
 import CBV.Lemmas.C12Tie
+import CBV.Gen.TC12
 
 namespace CBV.C12
 
